@@ -179,7 +179,13 @@ def check(ctx):
             # reach this point is decided by data flow, not by the guards
             complete = False
         same_atom = window = dist = False
+        extra = None
         for v, pol, expr, q in facts:
+            cc_ = norm_cmp2(v.cmp) if v is not None else None
+            if cc_ is not None and is_window(cc_[2]) and cc_[1].abs_of is not None:
+                inner_ = cc_[1].abs_of
+                if inner_.bin is not None and inner_.bin[0] == '-' and {inner_.bin[1].col, inner_.bin[2].col} == {'start time', 'stop time'}:
+                    extra = expr
             if v is None or (v.cmp is None and v.red is None and not has_const(v)):
                 complete = False  # an opaque condition: nothing can be concluded from the absence of a recognised test
             if v is None:
@@ -203,6 +209,9 @@ def check(ctx):
                 if cc is not None and cc[0] in ('<', '<=') and cc[1].geo == ('DIST',) and is_cutoff(cc[2]):
                     dist = True
         und = None if not complete else False
+        if extra is not None:
+            ctx.ob('R2', where, extra, False, 'the time test is symmetric (absolute value of start - stop against the window): pairs in which one jump '
+                                              'started long before the other stopped are rejected although they overlap in time (collective pairs are missed)')
         ctx.ob('R2', where, a, True if same_atom else und, 'pairs of the same atom are excluded' if same_atom else
                'a pair can be recorded for two jumps of the same atom (no same-atom test dominates the append)')
         ctx.ob('R2', where, norm_text(a) + ' [window]', True if window else und, 'pairs outside the correlation window are excluded' if window else
